@@ -16,11 +16,11 @@ ASSUMPTIONS = ["fluid-range packing fractions (eta <= 0.45) on which krylov conv
 BUDGET = {'quick': 1200, 'thorough': 5400}
 T1 = G.TYPES[0]
 
-def solve1(eta, dr, L, hc, kT=1.0, pot=None, clo='py', rho=None, method='krylov'):
+def solve1(eta, dr, L, hc, kT=1.0, pot=None, clo='py', rho=None, method='krylov', d=1.0):
     s = pyPRISM.System([T1], kT=kT)
     s.domain = pyPRISM.Domain(length=L, dr=dr)
-    s.density[T1] = rho if rho is not None else eta * 6 / math.pi
-    s.diameter[T1] = 1.0
+    s.density[T1] = rho if rho is not None else eta * 6 / math.pi / d ** 3
+    s.diameter[T1] = d
     s.potential[T1, T1] = pot if pot is not None else pyPRISM.potential.HardSphere()
     s.closure[T1, T1] = G.mk_clo([clo, hc])
     s.omega[T1, T1] = pyPRISM.omega.SingleSite()
@@ -67,7 +67,7 @@ def wt_S(eta, k, cfun):
     return 1.0 / (1.0 - eta * 6 / math.pi * ck)
 
 def suite_wertheim(ctx, case):
-    eta = case['eta']; rmax = case['rmax']; N0 = case['N0']; hc = case['hc']
+    eta = case['eta']; rmax = case['rmax']; N0 = case['N0']; hc = case['hc']; dd = case.get('d', 1.0)      # results depend on r/d, k d only
     out = ctx.drv.ask('wt %s %s' % (f2h(eta), fl(np.arange(1, N0 + 1) * rmax / N0))).split()
     contact = h2f(out[0]); S0 = h2f(out[1])
     r0 = np.arange(1, N0 + 1) * rmax / N0
@@ -79,19 +79,19 @@ def suite_wertheim(ctx, case):
     e_contact = []; e_S = []; e_S0 = []; e_c = []; drs = []
     for N in case['Ns']:
         dr = rmax / N
-        p = solve1(eta, dr, N, hc)
+        p = solve1(eta, dr * dd, N, hc, d=dd)
         ctx.validation_runs += 1
         if p is None:
             ctx.dist['wertheim:not-converged'] += 1; return
         d = p.sys.domain
         g = pyPRISM.calculate.pair_correlation(p)[T1, T1]
-        first = int(np.argmax(d.r > 1.0 + 1e-9))
+        first = int(np.argmax(d.r > dd * (1.0 + 1e-9)))
         e_contact.append(abs(g[first] - contact) / contact)
-        Sun = pyPRISM.calculate.structure_factor(p, normalize=False)[T1, T1] / (eta * 6 / math.pi)
+        Sun = pyPRISM.calculate.structure_factor(p, normalize=False)[T1, T1] / (eta * 6 / math.pi / dd ** 3)
         S = pyPRISM.calculate.structure_factor(p)[T1, T1]
         ctx.pred('wertheim', case, bool(np.allclose(S, Sun, rtol=1e-9, atol=1e-12)), 'normalised S(k) differs from the unnormalised one divided by rho', key='C02:wertheim:S(k)')
         nk = N0 // 4
-        Sref = wt_S(eta, d.k[:nk], cfun)
+        Sref = wt_S(eta, d.k[:nk] * dd, cfun)
         e_S.append(float(np.max(np.abs(S[:nk] - Sref))) / float(np.max(np.abs(Sref))))
         k3 = d.k[:3]; y3 = S[:3]
         y0 = y3[0] * k3[1] * k3[2] / ((k3[0] - k3[1]) * (k3[0] - k3[2])) + y3[1] * k3[0] * k3[2] / ((k3[1] - k3[0]) * (k3[1] - k3[2])) + y3[2] * k3[0] * k3[1] / ((k3[2] - k3[0]) * (k3[2] - k3[1]))
@@ -102,7 +102,7 @@ def suite_wertheim(ctx, case):
         sel = ins & (r0 < 1.0 - 1.5 * rmax / N0)
         e_c.append(float(np.max(np.abs(cr[sel] - cref_all[sel]))) / float(np.max(np.abs(cref_all[sel]))))
         # no probability inside the core, c = 0 outside the core (PY hard spheres)
-        outside = d.r > 1.0 + 1e-9
+        outside = d.r > dd * (1.0 + 1e-9)
         ctx.pred('wertheim', case, float(np.max(np.abs(c[T1, T1][outside]))) <= 1e-4, 'PY hard spheres: c(r) is not zero outside the core (%.3g)' % np.max(np.abs(c[T1, T1][outside])), key='C02:c-outside')
         drs.append(dr)
     case2 = dict(case, errors={'contact': e_contact, 'S': e_S, 'S0': e_S0, 'c': e_c})
@@ -194,7 +194,7 @@ def generate(ctx):
     for eta in etas:
         rmax = rng.choice([12.8, 16.0])
         N0 = rng.choice([128, 160]) if rmax == 16.0 else 128
-        case = {'eta': eta, 'rmax': rmax, 'N0': N0, 'Ns': [N0, 2 * N0] + ([] if ctx.quick() else [4 * N0]), 'hc': rng.random() < 0.5}
+        case = {'eta': eta, 'rmax': rmax, 'N0': N0, 'Ns': [N0, 2 * N0] + ([] if ctx.quick() else [4 * N0]), 'hc': rng.random() < 0.5, 'd': rng.choice([1.0, 0.8, 1.25, 2.0])}
         ctx.case('wertheim', case, True, tags=['eta:%g' % eta, 'hc:%s' % case['hc']]); suite_wertheim(ctx, case)
     for _ in range(ctx.n(3, 20)):
         case = {'etas': sorted(rng.sample([0.05, 0.1, 0.15, 0.2, 0.25, 0.3, 0.35], 3)), 'N': 128, 'dr': rng.choice([0.1, 0.125]), 'reverse': rng.random() < 0.5}
